@@ -117,8 +117,8 @@ def run(ctx):
     ctx.assumptions = ["target 3.11 for the proved stage; CPython 3.11.7 is the reference interpreter",
                        "the Python oracle program is emitted from the generator's tree, independently of erg's transpiler"]
     thorough = ctx.tier == "thorough"
-    nA = 3000 if thorough else 150
-    nB = 4000 if thorough else 150
+    nA = 1200 if thorough else 150
+    nB = 1800 if thorough else 150
     proof = core.proof_stage(ctx, "C01", ["ErgVerif.C01.Props", "ergmodel_c01"])
     ok_h, hlog, bindir = core.cargo_build(["c01"])
     ok_e, elog, erg = core.erg_binary()
@@ -145,6 +145,7 @@ def run(ctx):
     # real interpreter + oracle on the same programs
     realA = fragrun.run_programs([(pid, src, py) for pid, src, py, _ in progsA], erg)
     in_model = 0
+    not_emitted = 0
     nontrivial = 0
     vm_mismatch = []
     oracle_mismatch = []
@@ -159,6 +160,12 @@ def run(ctx):
         if not m or not impl.startswith("(hir"):
             continue
         in_model += 1
+        if r["erg_class"] in ("rejected", "crash", "timeout", "no-pyc"):
+            # the in-process hook can hand back HIR + code for a program the `erg compile` command line refuses (compile-time
+            # error or compiler failure): no bytecode is emitted for it, so there is nothing to compare with the Python reading
+            # (same rule as stream B); the instruction-level tie above still covers the code the hook produced
+            not_emitted += 1
+            continue
         if "defv" in impl and ("jumpIf" in impl or "binaryOp" in impl or "popJumpIfFalse" in impl):
             nontrivial += 1
         vo = vm_outcome(m[2])
@@ -171,7 +178,7 @@ def run(ctx):
             vm_mismatch.append({"id": pid, "src": src, "vm": [ex, lines], "real": [r["erg_class"], r["erg_out"]], "stderr": r["erg_err"][-400:]})
         if (r["erg_class"], r["erg_out"]) != (r["py_class"], r["py_out"]):
             oracle_mismatch.append((pid, src, py, feats, r))
-    extra.update({"streamA_programs": len(progsA), "streamA_in_model": in_model, "streamA_outcome_kinds": kinds,
+    extra.update({"streamA_programs": len(progsA), "streamA_in_model": in_model, "streamA_in_model_but_refused_by_cli": not_emitted, "streamA_outcome_kinds": kinds,
                   "streamA_codegen_disagreements": len(res.disagree), "streamA_vm_vs_real_mismatches": len(vm_mismatch)})
 
     # ------------------------------------------------------------------ stream B
